@@ -47,6 +47,7 @@ def main():
             s = p.read_text()
             if s.count(old) != 1:
                 rows.append((name, prop, f"NOT-APPLIED (old text occurs {s.count(old)}x)"))
+                print(f"{prop} {name:40s} {rows[-1][2]}", flush=True)
                 continue
             p.write_text(s.replace(old, new))
             # must still import
